@@ -211,6 +211,89 @@ def deep_spec_op(sink, how, depth, op):
     sink.case(harness.fp('deepspec', how, depth, op), True, dict(ident, outcome=k) if depth > 5000 else None)
 
 
+STALE_HISTORIES = ('unregistered', 're-registered', 're-registered-elsewhere', 'unregistered-by-a-sibling-flatten')
+STALE_OPS = ('flatten_up_to', 'tree_map-rest', 'tree_map-first', 'unflatten', 'is_prefix', 'broadcast', 'compose', 'paths-accessors', 'eq-hash-repr', 'pickle', 'transform', 'traverse', 'prefix_errors',
+             'tree_broadcast_prefix')
+
+
+def stale_spec_op(sink, history, op):  # noqa: C901
+    """A treespec that outlives the registration of a custom type it mentions, used with objects of exactly that type: every operation
+    returns something consistent or raises a Python exception."""
+    ident = dict(part='stale', history=history, op=op)
+    ns = 'c16stale'
+
+    class St(U.CBase):
+        __slots__ = ()
+
+    class Sib(U.CBase):
+        __slots__ = ()
+
+    def fl(o):
+        return tuple(o.kids), ('St', o.meta), None
+
+    def fl2(o):
+        return tuple(reversed(o.kids)), ('St2', o.meta), None
+
+    armed = [False]
+
+    def sib_fl(o):
+        if armed[0]:
+            armed[0] = False
+            try:
+                optree.unregister_pytree_node(St, namespace=ns)
+            except Exception:  # noqa: BLE001
+                pass
+        return tuple(o.kids), None, None
+
+    optree.register_pytree_node(St, fl, lambda m, c: St(c, m[1]), namespace=ns)
+    optree.register_pytree_node(Sib, sib_fl, lambda m, c: Sib(c), namespace=ns)
+    try:
+        def mk():
+            return [Sib([U.Leaf('s')]), St([U.Leaf(1), (U.Leaf(2), None)], meta='m'), {'k': St([], meta='e')}]
+
+        tree, rest = mk(), mk()
+        leaves, spec = optree.tree_flatten(tree, namespace=ns)
+        spec2 = optree.tree_structure(rest, namespace=ns)
+        if history == 'unregistered':
+            optree.unregister_pytree_node(St, namespace=ns)
+        elif history == 're-registered':
+            optree.unregister_pytree_node(St, namespace=ns)
+            optree.register_pytree_node(St, fl2, lambda m, c: St(list(reversed(list(c))), m[1]), namespace=ns)
+        elif history == 're-registered-elsewhere':
+            optree.unregister_pytree_node(St, namespace=ns)
+            optree.register_pytree_node(St, fl2, lambda m, c: St(c, m[1]), namespace=ns + '-other')
+        else:
+            armed[0] = True  # the type disappears in the middle of the operation, from the flatten function of an earlier sibling
+        f = {
+            'flatten_up_to': lambda: len(spec.flatten_up_to(rest)),
+            'tree_map-rest': lambda: type(optree.tree_map(lambda a, b: a, tree, rest, namespace=ns)).__name__,
+            'tree_map-first': lambda: type(optree.tree_map(lambda a: a, rest, namespace=ns)).__name__,
+            'unflatten': lambda: type(spec.unflatten(leaves)).__name__,
+            'is_prefix': lambda: (spec.is_prefix(spec2), spec <= spec2, spec2.is_suffix(spec)),
+            'broadcast': lambda: spec.broadcast_to_common_suffix(spec2).num_nodes,
+            'compose': lambda: spec.compose(spec2).num_nodes,
+            'paths-accessors': lambda: (len(spec.paths()), len(spec.accessors()), spec.entries(), len(spec.children())),
+            'eq-hash-repr': lambda: (spec == spec2, spec == optree.tree_structure(mk(), namespace=ns), hash(spec) == hash(spec2), len(repr(spec))),
+            'pickle': lambda: pickle.loads(pickle.dumps(spec)).num_nodes,
+            'transform': lambda: spec.transform(lambda s_: s_, lambda s_: s_).num_nodes,
+            'traverse': lambda: type(spec.traverse(leaves, lambda x: x, lambda x: x)).__name__,
+            'prefix_errors': lambda: len(optree.prefix_errors(tree, rest, namespace=ns)),
+            'tree_broadcast_prefix': lambda: type(optree.tree_broadcast_prefix(tree, rest, namespace=ns)).__name__,
+        }[op]
+        k, v = outcome(f)
+        sink.check(k not in ('SystemError', 'InternalError'), f'stale/internal-error/{op}', 'a treespec that outlives a registration makes every operation return or raise a documented Python exception', ident,
+                   lambda: (k, repr(v)[:200]))
+        sink.count(f'stale-outcome:{history}:{op}:{"ok" if k == "ok" else k}')
+        sink.count('stale-operations')
+        sink.case(harness.fp('stale', history, op), True, dict(ident, outcome=k))
+    finally:
+        for cls_, ns_ in ((St, ns), (St, ns + '-other'), (Sib, ns)):
+            try:
+                optree.unregister_pytree_node(cls_, namespace=ns_)
+            except Exception:  # noqa: BLE001
+                pass
+
+
 def depth_cyclic(sink):
     li = []
     li.append(li)
@@ -793,6 +876,8 @@ def journal_cases(shard):
     cases.append(dict(part='cyclic'))
     for how, depth in DEEP_BUILDS:
         cases.append(dict(part='deepspec', build=how, depth=depth))
+    for hist in STALE_HISTORIES:
+        cases.append(dict(part='stale', history=hist))
     if only_depth:
         return [c for j, c in enumerate(cases) if j % n == i]
     cells = matrix_cells()
@@ -817,6 +902,10 @@ def journal_run(sink, case, sub_start, progress):
     elif part == 'cyclic':
         progress(0)
         depth_cyclic(sink)
+    elif part == 'stale':
+        for j in range(sub_start, len(STALE_OPS)):
+            progress(j)
+            stale_spec_op(sink, case['history'], STALE_OPS[j])
     elif part == 'deepspec':
         for j in range(sub_start, len(DEEP_OPS)):
             progress(j)
@@ -884,6 +973,10 @@ def run_shard(sink, tier, seed, shard):  # noqa: C901
                     where = dict(case, index=case['start'] + (d['sub'] or 0))
                 elif case.get('part') == 'depth':
                     mech = f'depth/{case.get("kind")}'
+                elif case.get('part') == 'stale':
+                    op_ = STALE_OPS[d['sub']] if d['sub'] is not None and d['sub'] < len(STALE_OPS) else '?'
+                    where = dict(case, op=op_)
+                    mech = f'stale/{case.get("history")}/{op_}'
                 elif case.get('part') == 'deepspec':
                     op_ = DEEP_OPS[d['sub']] if d['sub'] is not None and d['sub'] < len(DEEP_OPS) else '?'
                     where = dict(case, op=op_)
